@@ -42,6 +42,11 @@ type Task struct {
 	// spawned is runnable (see Config.ChildFirst); heldSteps bounds the hold
 	heldFor   *Task
 	heldSteps int
+	// last: spawn-last scheduling - this task is only scheduled when nothing else can
+	// happen at this instant (1 = until it has run once, 2 = for its whole life);
+	// lastSteps bounds it (see Config.SpawnLast)
+	last      int
+	lastSteps int
 	// Group names the simulated process instance this task belongs to (inherited
 	// by the tasks it spawns); a frozen group is never scheduled again (crash).
 	Group string
@@ -111,6 +116,12 @@ type Config struct {
 	// goroutine arrives before its requester has finished, which the sticky
 	// scheduler reaches only through a long run of unlikely choices.
 	ChildFirst float64
+	// SpawnLast > 0: with this probability a new task gets the lowest priority - it is
+	// scheduled only when no other task and no due event is left at this instant (time
+	// does not pass meanwhile) - until it has run once, or (every other time) for its whole
+	// life: "the goroutine gets going only after everybody else has finished what they
+	// were doing", the opposite of ChildFirst.
+	SpawnLast float64
 	// OnlySites, when non-empty, restricts optional yield points to sites
 	// containing one of these substrings (site-targeted strategy).
 	OnlySites []string
@@ -435,6 +446,12 @@ func (s *Sched) spawn(label string, f func()) *Task {
 			p.heldFor, p.heldSteps = t, 0
 			s.mu.Unlock()
 			s.Fault("child-first")
+		}
+	}
+	if t.heldForNobody(s) && s.cfg.SpawnLast > 0 && s.cfg.Parallel == 0 && !s.aborting.Load() && s.current() != nil {
+		if v := s.choose("spawn-last", 3, 1-s.cfg.SpawnLast); v > 0 {
+			t.last = v
+			s.Fault("spawn-last")
 		}
 	}
 	s.mu.Lock()
@@ -804,6 +821,9 @@ func (s *Sched) Run(invariant func() string) string {
 			s.logMu.Lock()
 			s.SitesUsed[a.t.site]++
 			s.logMu.Unlock()
+			if a.t.last == 1 {
+				a.t.last = 0
+			}
 			s.Logf("run %s @%s", a.t.Label, a.t.site)
 			s.mu.Lock()
 			delete(s.parked, a.t)
@@ -834,6 +854,16 @@ func (s *Sched) held(t *Task) bool {
 		return false
 	}
 	t.heldSteps++
+	return true
+}
+
+// heldForNobody: no task is being held back for t (a task cannot be run first and last).
+func (t *Task) heldForNobody(s *Sched) bool {
+	if p := s.current(); p != nil {
+		s.mu.Lock()
+		defer s.mu.Unlock()
+		return p.heldFor != t
+	}
 	return true
 }
 
@@ -907,6 +937,26 @@ func (s *Sched) enabled(now time.Time) []action {
 			seenQ[e.queue] = true
 		}
 		acts = append(acts, action{e: e})
+	}
+	// spawn-last tasks only when nothing else is left (each for at most 2000 decisions)
+	n := 0
+	for _, a := range acts {
+		if a.t == nil || a.t.last == 0 {
+			n++
+		}
+	}
+	if n > 0 && n < len(acts) {
+		kept := acts[:0]
+		for _, a := range acts {
+			if a.t != nil && a.t.last != 0 {
+				if a.t.lastSteps++; a.t.lastSteps < 2000 {
+					continue
+				}
+				a.t.last = 0
+			}
+			kept = append(kept, a)
+		}
+		acts = kept
 	}
 	return acts
 }
